@@ -46,6 +46,70 @@ def feq(a, b, tol=core.TOL):
     return core.agree_ff(a, b, tol) is None
 
 
+def stale_state_oracle(ctx, which, n_quick=40, n_thorough=500):
+    """state kept between calls: the same train objects (and the same list object) are used for several calls; in
+    between, one train gets new (valid) spike times - by assigning a new array to .spikes, or by editing the array
+    in place.  With reconciliation off the objects are used as given, so every call must describe the CURRENT
+    content: it is compared with the same call on freshly built objects.  `which`: names of public functions."""
+    import numpy as np
+    r, ps = ctx.rng, ctx.ps
+    q = ctx.impl._quiet
+    lists, g = ctx.space.random_lists(n=n_quick if ctx.tier == "quick" else n_thorough, maxtr=4)
+    table = {
+        "isi_profile": (ps.isi_profile, {}), "spike_profile": (ps.spike_profile, {}),
+        "spike_sync_profile": (ps.spike_sync_profile, {"max_tau": 0.25}),
+        "spike_train_order_profile": (ps.spike_train_order_profile, {"max_tau": 0.25}),
+        "isi_distance": (ps.isi_distance, {}), "spike_distance": (ps.spike_distance, {}),
+        "spike_sync": (ps.spike_sync, {"max_tau": 0.25}), "spike_train_order": (ps.spike_train_order, {}),
+        "isi_distance_matrix": (ps.isi_distance_matrix, {}), "spike_sync_matrix": (ps.spike_sync_matrix, {}),
+        "spike_directionality_values": (ps.spike_directionality_values, {}),
+        "spike_directionality_matrix": (ps.spike_directionality_matrix, {}),
+        "filter_by_spike_sync": (lambda s_, **k: ps.filter_by_spike_sync(s_, 0.5, **k), {}),
+    }
+    for L in ctx.part(lists):
+        L = [t if t else [Fr(1, 2)] for t in L]                    # keep every train non-empty: lengths are kept below
+        for name in which:
+            f, kw0 = table[name]
+            for kwx in (dict(Reconcile=False), dict(Reconcile=False, MRTS=0.25), dict()):
+                kw = dict(kw0)
+                kw.update(kwx)
+                sts = ctx.impl.trains([T(t) for t in L])
+                forms = [lambda: f(sts, **kw)]
+                if "matrix" not in name and "values" not in name and "filter" not in name:
+                    forms.append(lambda: f(sts[0], sts[1], **kw))
+                log = []
+                for step in range(3):
+                    if step == 1:      # a new array of the same length is assigned
+                        k = r.randrange(len(sts))
+                        new = sorted(set(Fr(r.randint(0, 16), 16) for _ in range(len(L[k]) + 2)))[:len(L[k])]
+                        if len(new) < len(L[k]):
+                            continue
+                        L = L[:k] + [new] + L[k + 1:]
+                        sts[k].spikes = np.array([float(x) for x in new])
+                        log.append("train %d: .spikes = new array" % k)
+                    if step == 2:      # the array is rewritten in place (same object, new sorted content of the same length)
+                        k = r.randrange(len(sts))
+                        new = sorted(set(Fr(r.randint(0, 32), 32) for _ in range(len(L[k]) + 2)))[:len(L[k])]
+                        if len(new) == len(L[k]):
+                            L = L[:k] + [new] + L[k + 1:]
+                            sts[k].spikes[:] = [float(x) for x in new]
+                            log.append("train %d: spike array rewritten in place" % k)
+                    fresh = ctx.impl.trains([T(t) for t in L])
+                    for fi, form in enumerate(forms):
+                        got = core.call_impl(lambda: q(form))
+                        ff = (lambda: f(fresh, **kw)) if fi == 0 else (lambda: f(fresh[0], fresh[1], **kw))
+                        want = core.call_impl(lambda: q(ff))
+                        ctx.check()
+                        if not feq(got, want, 1e-12):
+                            ctx.violate("%s on objects that were used before (%s) differs from the same call on fresh objects"
+                                        % (name, "; ".join(log) or "second call"), name,
+                                        [[T(t) for t in L], repr(sorted(kwx)), Nat(fi)], expected=want, got=got)
+                            break
+                    # leave the list form as the most recent call (a one-entry cache would now hold this list object)
+                    core.call_impl(lambda: q(forms[0]))
+                ctx.nontrivial(("stale", name, core.enc(L), repr(sorted(kwx))))
+
+
 # ---------------------------------------------------------------------------
 @prop("C01")
 def c01(ctx):
@@ -79,6 +143,7 @@ def c01(ctx):
             ctx.violate("isi_profile raises", "isi_profile", [T(a), T(b)], got=repr(e))
             continue
         profile_eval_oracle(ctx, "isi_profile", f, (f.x, f.y), False, [T(a), T(b), kw])
+    stale_state_oracle(ctx, ["isi_profile", "isi_distance"])
     # shifted / scaled interval so that t_start != 0
     cases = []
     rnd, g = ctx.space.random_pairs(n=300)
@@ -272,6 +337,8 @@ def c03(ctx):
         ctx.corr(sync_cases(pairs, g, (6, 7)), pair_nt)
         ctx.corr([(52, [rc, mt, m, T(a), T(b)]) for a, b in pairs
                   for m in mrts_grid(g)[:2] for mt in maxtau_grid(g)[:2] for rc in (False, True)], pair_nt)
+        # a threshold larger than the whole recording is a valid threshold (the documented interpolation saturates)
+        ctx.corr([(52, [False, Z, m, T(a), T(b)]) for a, b in pairs[::2] for m in (Fr(2), Fr(5))], pair_nt)
         # the same profile through the list forms (list of two; longer list + index pair): max_tau and MRTS must arrive
         ctx.corr([(62, [k % 4 == 1, mt, m, [T(a), T(b)], None] if k % 2 else [False, mt, m, [T(b), T(a), T(b)], [Nat(1), Nat(0)]])
                   for k, (a, b) in enumerate(pairs[::2]) for m in (Z, Fr(6, g)) for mt in maxtau_grid(g)[1:]],
@@ -1497,7 +1564,16 @@ def c10(ctx):
                     f.add(g)
                     log.append(["add"])
                 elif op == "copy":
+                    orig, orig_arrs = f, [np.array(a, copy=True) for a in _arrs(f)]
                     f = f.copy()
+                    f.mul_scalar(2.0)
+                    f.mul_scalar(0.5)
+                    f.mul_scalar(3.0)
+                    if not all(np.array_equal(x_, y_) for x_, y_ in zip(orig_arrs, _arrs(orig))):
+                        ctx.violate("scaling a copy changed the original (the copy shares an array with it)",
+                                    kind + " query sequence", [list(f0), list(g0)], got=[a.tolist() for a in _arrs(orig)])
+                    f.mul_scalar(1.0 / 3.0)
+                    f = orig.copy()
                     log.append(["copy"])
                 cur = [[Fr(v).limit_denominator(10 ** 9) for v in a.tolist()] for a in _arrs(f)]
                 want = float(integ(cur))
@@ -1649,6 +1725,28 @@ def c11(ctx):
                         f.mul_scalar(r.choice([2.0, 0.5]))
                     log.append(op)
         ctx.nontrivial(("c11seq", repr(log), core.enc([[list(a) for a in d] for d in d0])))
+    # integer-typed event times (sample indices, ms ticks) with fractional values (a profile that was scaled):
+    # every operation gives what the float-typed twin gives
+    for _ in range(ctx.n(100 if ctx.tier == "quick" else 1000)):
+        def mkdf(tp):
+            k_ = r.randint(1, 4)
+            xi = [0] + sorted(r.sample(range(1, 12), k_)) + [12]
+            mp = [r.choice([1, 2, 3]) for _ in range(k_)]
+            y = [r.choice([0.5, 1.5, 0.25, 2.0, 0.75]) for _ in range(k_)]
+            return xi, [y[0]] + y + [y[-1]], [mp[0]] + mp + [mp[-1]]
+        a_, b_ = mkdf(0), mkdf(1)
+        res = []
+        for tp in (int, float):
+            fa = DF(np.array(a_[0], dtype=tp), np.array(a_[1]), np.array(a_[2], dtype=float))
+            fb = DF(np.array(b_[0], dtype=tp), np.array(b_[1]), np.array(b_[2], dtype=float))
+            res.append(core.call_impl(lambda: qq(lambda: (fa.add(fb), [fa.x.tolist(), fa.y.tolist(), fa.mp.tolist(),
+                                                                      [float(v) for v in fa.integral()], float(fa.avrg()),
+                                                                      [a.tolist() for a in fa.get_plottable_data()]])[1])))
+        ctx.check()
+        ctx.nontrivial(("c11int", repr(a_), repr(b_)))
+        if not feq(res[0], res[1], 1e-12):
+            ctx.violate("DiscreteFunc.add with integer-typed event times differs from the float-typed twin", "df.add",
+                        [repr(a_), repr(b_)], expected=res[1], got=res[0])
     # nearly equal event times (2^-20 apart, same number of entries): one entry per distinct time
     for _ in range(ctx.n(300 if ctx.tier == "quick" else 3000)):
         k = r.randint(1, 4)
@@ -1734,6 +1832,9 @@ def c12(ctx):
             if not feq(x, float(sum(p[0]))):
                 ctx.violate("single-pass directionality != sum of fall-back values", "14", [a, b, Z, ONE, mt, m],
                             expected=sum(p[0]), got=x, rid=14)
+    # both backends describe the CURRENT content of objects that were used before (no state kept between calls)
+    stale_state_oracle(ctx, ["spike_sync_profile", "spike_sync", "spike_directionality_values", "spike_train_order",
+                             "isi_distance", "spike_distance", "filter_by_spike_sync"], 25, 300)
     # get_tau and the add routines
     cases = []
     for _ in range(ctx.n(1500 if ctx.tier == "quick" else 20000)):
@@ -1905,6 +2006,12 @@ def c13(ctx):
         ri = r.random() < 0.5
         ML = [[messy(r, t, g), Z, ONE] for t in L]
         CL = [T(t) for t in L]
+        # calls that raise (an unsupported keyword combination, an index out of range) must leave nothing behind
+        # that changes what later calls do
+        bad_sts = ctx.impl.trains(CL)
+        core.call_impl(lambda: ctx.ps.spike_train_order(bad_sts, interval=(0.25, 0.75)))
+        core.call_impl(lambda: ctx.ps.isi_distance(bad_sts, indices=[0, 99]))
+        core.call_impl(lambda: ctx.ps.spike_sync_profile(bad_sts, indices=[-1, 0]))
         A, B, Am, Bm = CL[0], CL[1], ML[0], ML[1]
         thr = Fr(r.randint(0, nL - 1), nL - 1)
         checks = [(50, [m], 2), (51, [m, ri], 2), (52, [mt, m], 2), (53, [mt, m], 2),
@@ -2103,6 +2210,10 @@ def c14(ctx):
                 ctx.violate("MRTS='auto': indices selection != sub-list", name,
                             [name, L, [Nat(x) for x in sel]], expected=sub, got=sid,
                             auto_subset=(len(sel) < n))
+    # the list form on a list object (and train objects) that were used before must equal the other forms on fresh objects
+    stale_state_oracle(ctx, ["isi_profile", "spike_profile", "spike_sync_profile", "spike_train_order_profile", "isi_distance",
+                             "spike_distance", "spike_sync", "spike_train_order", "isi_distance_matrix", "spike_sync_matrix",
+                             "spike_directionality_values", "spike_directionality_matrix"], 20, 250)
     # model correspondence of pair enumeration via the multi entry points with index lists
     cases = []
     for L in lists[:150]:
@@ -2554,6 +2665,7 @@ def c17(ctx):
         if isinstance(k2, core.Err) or any(not set(b_[0]) <= set(a_[0]) for a_, b_ in zip(kept, k2)):
             ctx.violate("a higher threshold keeps a spike the lower one removed", "filter_by_spike_sync",
                         [False, mt, m, [thr, thr2], TL], expected=kept, got=k2)
+    stale_state_oracle(ctx, ["filter_by_spike_sync", "spike_sync_profile"], 30, 300)
     # MRTS='auto' in the filter is ONE threshold pooled over the list (as in the multivariate profile it is compared with)
     from pyspike.isi_lengths import default_thresh
     al, g3 = ctx.space.random_lists(n=120 if ctx.tier == "quick" else 1500)
